@@ -115,6 +115,13 @@ class C18(Prop):
             ((0,), (0,), (1, 0), (1, 0), (1, 1), (1, 1), (3,), (2, 0), (1, 1), (2, 1)),
             ((0,), (1, 0), (1, 0), (1, 0), (1, 0), (1, 0), (1, 0), (0,), (0,), (1, 1), (2, 0), (1, 2), (1, 2), (3,), (2, 1), (2, 2)),
             ((0,), (1, 0), (1, 0), (0,), (1, 1), (1, 1), (1, 0), (2, 0), (1, 1), (3,), (2, 1)),
+            # an old iterator is created first but not advanced; another one sorts and fills the file cache; a third is served
+            # from the file cache and stopped at the header; then the old one is advanced for the first time (it re-sorts and
+            # resets the cache); the third must still be able to read its chunk files
+            ((0,), (0,), (1, 1), (1, 1), (1, 1), (1, 1), (1, 1), (1, 1), (1, 1), (0,), (1, 2), (1, 0), (1, 2), (1, 2), (1, 2), (1, 2),
+             (2, 0), (2, 1), (2, 2), (3,)),
+            ((0,), (0,), (1, 1), (1, 1), (1, 1), (1, 1), (1, 1), (1, 1), (1, 1), (0,), (1, 0), (1, 2), (1, 2), (1, 2), (1, 2), (1, 2),
+             (2, 2), (2, 0), (3,), (2, 1)),
         ]
         for ops in directed:
             for n, bs in ((3, 2), (5, 2), (4, 1), (2, 2), (2, 5)):
